@@ -209,6 +209,36 @@ impl<P: PType> Sut for PrefixSet<P> {
                 }
                 *self = seq.into_iter().collect();
             }
+            K::FromIterBig => {
+                let old = std::mem::take(self);
+                let n = PrefixSet::len(&old);
+                let first: Vec<P> = old.into_iter().take(cap(n)).collect();
+                let mut seq: Vec<P> = vec![];
+                for round in 0..6u32 {
+                    let mut items: Vec<GK> = first
+                        .iter()
+                        .enumerate()
+                        .map(|(i, p)| {
+                            let nk = norm(p.raw());
+                            let k = with_rep(nk, ((round + i as u32) % 2) as u8, uni.width);
+                            if P::KEEPS_HOST {
+                                k
+                            } else {
+                                nk
+                            }
+                        })
+                        .collect();
+                    items.sort_by_key(|k| k.1);
+                    if round % 2 == 0 {
+                        items.reverse();
+                    }
+                    for k in items {
+                        seq.push(mkp(k));
+                        model.insert(k, 0);
+                    }
+                }
+                *self = seq.into_iter().collect();
+            }
             other => panic!("operation {other:?} is not part of the set alphabet"),
         }
         out
@@ -218,7 +248,7 @@ impl<P: PType> Sut for PrefixSet<P> {
         let mut v: Vec<Op> = all
             .into_iter()
             .filter(|o| match o.kind {
-                K::Insert | K::Remove | K::RemoveKeepTree | K::RemoveChildren | K::Clear | K::Retain | K::CloneSelf | K::Recollect | K::RecollectRev | K::FromIterDup => true,
+                K::Insert | K::Remove | K::RemoveKeepTree | K::RemoveChildren | K::Clear | K::Retain | K::CloneSelf | K::Recollect | K::RecollectRev | K::FromIterDup | K::FromIterBig => true,
                 K::ViewSet | K::ViewRemove => o.arg <= 1,
                 _ => false,
             })
